@@ -193,19 +193,23 @@ def ff_timing_case(ctx, idx, workers):
     return res
 
 
-def ff_queue_case(ctx, idx):
-    """fail-fast with ONE worker and more ready targets than workers: f runs 0.5 s and fails; r is quick; q1..q6 depend on r.
-    Whatever order the pool picks, something is queued behind f when it fails, and with one worker nothing runs concurrently
-    with f: every command start after f's failure is a target started after the first failure. The property (and the model)
-    allow a start in the window between the failing process exiting and onComplete, so a late start counts only if it shows
-    up in three runs out of three."""
+def ff_queue_case(ctx, idx, workers=1, seed=0):
+    """fail-fast with more ready targets than workers: f runs 0.5 s and fails; r is quick; q1..q6 depend on r; a random majority of the
+    bystanders (r, q*) declares a generous `timeout:` (the attribute changes which context their command runs under). Whatever
+    order the pool picks, something is queued behind f when it fails: every command start after f's failure is a target started
+    after the first failure. The property (and the model) allow a start in the window between the failing process exiting and
+    onComplete, so one late start proves nothing: the scenario is repeated until three runs show late starts (reported) or three
+    runs show none."""
+    import random
+    rng = random.Random(seed)
     n = 8
     edges = [[1, m] for m in range(2, 8)]
     kinds = ["exit-logged"] + [None] * 7
     sleep = [0.5, 0] + [0.1] * 6
-    runs = []
-    for attempt in range(3):
-        ws = W.CliWs(ctx, f"c05-ffq-{idx}-{attempt}", n, edges, kinds=kinds, sleep=sleep, workers=1)
+    timeouts = {m: rng.choice(["20s", "120s", "1h"]) for m in range(1, 8) if rng.random() < 0.8}
+    runs, hits, misses = [], 0, 0
+    for attempt in range(5):
+        ws = W.CliWs(ctx, f"c05-ffq-{idx}-{attempt}", n, edges, kinds=kinds, sleep=sleep, workers=workers, timeouts=timeouts)
         b = ws.build(flags=("--fail-fast",))
         time.sleep(0.6)                      # commands started by a dying grog survive as orphans: let them log
         tr = b["trace"] + ws.read_trace()
@@ -213,14 +217,17 @@ def ff_queue_case(ctx, idx):
         late = sorted((m, round((t - failed_at[0]) / 1e9, 3)) for k, m, t in tr if failed_at and k == "s" and m != 0 and t > failed_at[0])
         runs.append({"rc": b["rc"], "late_starts": late, "f_ran": bool(failed_at)})
         ws.cleanup()
-        if not late:
+        hits += bool(late)
+        misses += not late
+        if hits >= 3 or misses >= 3:
             break
-    res = {"n": n, "edges": edges, "family": "ff-queue", "workers": 1, "failFast": True, "runs": runs, "bad": []}
+    res = {"n": n, "edges": edges, "family": "ff-queue", "workers": workers, "failFast": True, "timeouts": timeouts, "runs": runs, "bad": []}
     if any(r["rc"] == 0 for r in runs):
         res["bad"].append(("failure-exit-zero", "fail-fast build with a failing target exited 0"))
-    if len(runs) == 3 and all(r["late_starts"] for r in runs):
+    if hits >= 3:
         res["bad"].append(("target-started-after-first-failure",
-                           f"--fail-fast, num_workers=1: in 3 of 3 runs commands started after the failing command had failed: {[r['late_starts'] for r in runs]}"))
+                           f"--fail-fast, num_workers={workers}, timeouts on {sorted(timeouts)}: in {hits} of {len(runs)} runs commands started after the "
+                           f"failing command had failed: {[r['late_starts'] for r in runs]}"))
     return res
 
 
@@ -307,8 +314,8 @@ def run(ctx):
     results = []
     with cf.ThreadPoolExecutor(max_workers=4) as ex:
         futs = [ex.submit(cli_case_confirmed, ctx, i, s) for i, s in enumerate(seeds)]
-        futs += [ex.submit(ff_timing_case, ctx, i, w) for i, w in enumerate((1, 2) if quick else (1, 2, 3, 4))]
-        futs += [ex.submit(ff_queue_case, ctx, i) for i in range(2 if quick else 8)]
+        futs += [ex.submit(W.confirmed, ff_timing_case, ctx, i, w) for i, w in enumerate((1, 2) if quick else (1, 2, 3, 4))]
+        futs += [ex.submit(ff_queue_case, ctx, i, 1 + i % 2, rng.randrange(1 << 30)) for i in range(2 if quick else 8)]
         for f in futs:
             results.append(f.result())
     kinds_seen, fams = {}, {}
